@@ -42,6 +42,9 @@ TABLE = {
  "exceptions in trigger functions are logged with the script's traceback (new subsystem)": ("C18", "new subsystem: 1/0 three calls below an @event_trigger function was logged by custom_components.pyscript.function as 'run_coro: got exception' with an eval.py frame, not on the script's logger with hello.py frames"),
  "a deleted file of an app or module triggers the documented dependent reloads": ("C10", "delete apps/app1/sib.py (imported by apps/app1/__init__.py) + default reload: app1 was not reloaded and kept the stale sibling; delete modules/m1.py: its importers were not reloaded; reload(global_ctx='apps.app1') after deleting the sibling left the context apps.app1.sib loaded"),
  "once() with a yearless, day-of-week or sun-relative date keeps finding its next occurrence": ("C06", "timer_trigger_next(['once(wed 2:30)'], now=Wed 2020-01-01 02:30:00) gave None (next Wednesday expected; the trigger ended after firing once); same for once(12/31 noon) after 12/31 noon of the current year; once(sunrise +1d) at now=2019-12-31 06:51:16 gave None"),
+ "once() waits the real time until its local time across a DST change": ("C06", "@time_trigger('once(18:00)') started 2020-03-07 17:00 US/Pacific: the run of 2020-03-08 came at 19:00 local (24 h of real time after the previous one) in both subsystems"),
+ "time trigger wake-up check compares the clock with the local trigger time": ("C06", "new subsystem, @time_trigger('cron(0 18 * * *)') across 2020-11-01: the run came at 19:00 local; cron(1 1-4 * * *): 2:01 an hour late, 3:01 never"),
+ "time trigger does not run twice when woken just before the trigger time": ("C06", "new subsystem, @time_trigger('period(0:00, 1h)') with the wall clock 1 us behind the timer: the 1:00 instant ran twice (trigger_time 01:00 both times)"),
 }
 log = subprocess.run(["git", "-C", "/repo", "log", "--reverse", "--format=%h %s"], capture_output=True, text=True).stdout.strip().split("\n")
 fixed = []
